@@ -173,6 +173,16 @@ FENCE_FAMILIES = [
     "x = 'a' 'b' c\n", "x = 'a' 1\n", "x = 1 'a'\n", "x = a 'b'\n", "x = 'a'.'b'\n" if False else "x = 'a' . \n", "x = 0777\n", "x = 1__0\n", "x = 0b12\n", "x = 1e\n", "x = 0x\n", "x = 1_\n", "x = 1.2.3\n", "x = 1a\n", "x = 1if\n" if False else "x = 08\n",
     "x = (1\n", "x = [1\n", "x = {1\n", "x = 'a\n", "x = '''a\n", "x = 1 \\ 2\n", "x = 1 \\\n", "\\\n", "x = (1]\n", "x = [1)\n", "x = {1)\n", "x = (1}}\n",
 ]
+# prefix operators and markers that must not repeat or stack (the lookaheads fencing them are easy to weaken unnoticed)
+FENCE_FAMILIES += [
+    "* *a = b\n", "* *a, = b\n", "[* *a] = b\n", "(* *a,) = b\n", "a, * *b = c\n", "for * *a in b: pass\n", "for x, * *a in b: pass\n", "x = [0 for * *a in b]\n", "with c as (* *a,): pass\n",
+    "f(* *a)\n", "f(** **k)\n", "f(* **a)\n", "f(** *a)\n", "print(*, a)\n", "x = [* *a]\n", "x = {** **a}\n", "x = {* *a}\n", "x = (* *a,)\n", "x = * *a,\n", "def f(* *a): pass\n", "def f(** **k): pass\n",
+    "def f(*a, *b): pass\n", "lambda * *a: 0\n", "lambda ** **k: 0\n", "del *a\n", "del * *a\n", "del [* *a]\n", "@ @d\ndef f(): pass\n", "from a import * *\n", "from a import *, *\n",
+    "import * from a\n", "x = a if b else else c\n", "x = lambda lambda: 0\n", "x = a.. b\n", "x = a . . b\n", "x: int: int = 1\n", "x = y = = 1\n", "x += += 1\n", "x := := 1\n", "(x := y := 1)\n", "for for a in b: pass\n",
+    "async async def f(): pass\n", "async def def f(): pass\n", "class class A: pass\n", "return return\n", "global global a\n", "match x:\n case case 1: pass\n", "type X = = int\n",
+    "try try: pass\n", "a if if b else c\n", "[a for for b in c]\n", "[a for b in in c]\n", "[a for b in c if if d]\n", "f(a=b=c)\n", "f(a==)\n", "def f(a=): pass\n", "def f(a: : int): pass\n", "def f() -> -> int: pass\n",
+    "x = a[b:c:d:e]\n", "x = a[::, ::, :::]\n", "x = not not\n", "x = ~\n", "x = - -\n", "x = a ** ** b\n", "x = a // // b\n", "x = a @ @ b\n", "x = a < < b\n", "x = a and and b\n", "x = a or or b\n", "x = a not not in b\n", "x = a is not not b\n",
+]
 FENCE_FAMILIES = [s for s in FENCE_FAMILIES if s]
 
 
